@@ -2311,7 +2311,8 @@ class Deb822DuplicateFieldsParagraphElement(Deb822ParagraphElement):
         self._add_final_newline_if_missing()
 
         kvpair_order = self._kvpair_order
-        for node in nodes_being_relocated:
+        # Use "reversed" to preserve the relative order of the nodes assuming a bulk reorder
+        for node in reversed(nodes_being_relocated):
             if kvpair_order.head_node is node:
                 # Special case for relocating a single node that happens to be the first.
                 continue
